@@ -188,16 +188,20 @@ def kill_agent(home):
     subprocess.run(['gpgconf', '--kill', 'gpg-agent'], env=dict(os.environ, GNUPGHOME=home), stdout=subprocess.DEVNULL, stderr=subprocess.DEVNULL)
 
 
-def gpg_children():
-    """pids of running `gpg` processes (not gpg-agent)."""
+def gpg_children(home):
+    """pids of running `gpg` processes (not gpg-agent) that use this GNUPGHOME (other checks may run gpg too)."""
     out = []
+    want = b'GNUPGHOME=' + home.encode()
     for pid in os.listdir('/proc'):
         if pid.isdigit():
             try:
                 exe = os.readlink('/proc/%s/exe' % pid)
+                if os.path.basename(exe) != 'gpg':
+                    continue
+                env = open('/proc/%s/environ' % pid, 'rb').read().split(b'\0')
             except OSError:
                 continue
-            if os.path.basename(exe) == 'gpg':
+            if want in env:
                 out.append(int(pid))
     return out
 
@@ -267,10 +271,10 @@ class E2E:
         if max_request_size:
             extra['VSB_VERIF_MAX_REQUEST_SIZE'] = str(max_request_size)
         extra.update(env or {})
-        before = set(gpg_children())
+        before = set(gpg_children(self.home))
         seq0 = self.stage.emu.seq()
         r = store.run_vsb(self.ctx, ['-c', self.cfg, 'upload'] + list(args), now=self.w.now + 60, shim_env=shim_env, extra_env=extra, timeout=timeout)
-        left = [p for p in gpg_children() if p not in before]
+        left = [p for p in gpg_children(self.home) if p not in before]
         reqs = self.stage.settled_requests(seq0)
         self.stage.emu.set_script([])
         return {'run': r, 'requests': [q for q in reqs if q.get('provider') == self.provider], 'gpg_left': left, 'cloud': self.cloud()}
